@@ -8,6 +8,7 @@ import Rsbdd.Model.Gen.Queens
 import Rsbdd.Model.Gen.QueensText
 import Rsbdd.Model.Gen.Clique
 import Rsbdd.Model.Gen.Sudoku
+import Rsbdd.Model.Gen.SudokuText
 import Rsbdd.Model.Gen.Graph
 import Rsbdd.Spec.Puzzles
 
@@ -249,6 +250,13 @@ def holdsConj (board : Nat → Bool) : Nat → Formula → Option Bool
 /-- `sudoku|root|puzzle (hex, whitespace removed)|exit class|tree or ERR|solver rows or -` -/
 def handleC17 (fields : List String) : Verdict :=
   match fields with
+  | ["text", root, version, puzzle, bytes] =>
+    -- the bytes of the output against the text model (`Sudoku.text`): a recorded tie, not a verdict
+    match root.toNat?, unhexStr version, unhexStr puzzle, unhexStr bytes with
+    | some root, some v, some pz, some real =>
+      let same := real.toList == Sudoku.text v root pz.toList
+      { modelOk := true, nontrivial := same, info := some (if same then "text-model.identical" else "text-model.differs") }
+    | _, _, _, _ => Verdict.badLine "unreadable text line"
   | ["sudoku", root, puzzle, cls, ast, solver] =>
     match root.toNat?, unhexStr puzzle with
     | some r, some ptext =>
